@@ -13,6 +13,15 @@ package server
 // The teardown after the copy returns (close target, close stream, close the QUIC connection iff
 // the error is errDisconnect) is server.go:338-342 transcribed, because handleTCPRequest needs a
 // real *quic.Conn; the real teardown is exercised by level (b) in internal/integration_tests.
+//
+// Cases with a "req" object put the request in front of the client stream: the scripted stream first
+// delivers the frame type, the address and the padding (in scripted segments) and then the payload,
+// with the first payload segment optionally arriving in the same segment as the tail of the request
+// (fast open: the client writes before the server has parsed the request).  The harness then does what
+// ProxyStreamHijacker/handleTCPRequest do with a stream (server.go:246 and 276, transcribed):
+// quicvarint.Read of the frame type, protocol.ReadTCPRequest(stream), and the two-way copy on the
+// same stream.  Every byte the stream hands out before the copy starts is recorded ("Q" events), so
+// client payload consumed by the request phase shows up as a source offset the relay never read.
 
 import (
 	"bytes"
@@ -24,6 +33,9 @@ import (
 	"testing"
 	"testing/synctest"
 	"time"
+
+	"github.com/apernet/hysteria/core/v2/internal/protocol"
+	"github.com/apernet/quic-go/quicvarint"
 )
 
 type c06Read struct {
@@ -51,8 +63,17 @@ type c06Side struct {
 	Logs   []c06Log   `json:"logs"`   // behaviour of LogTraffic calls of this direction (argument position decides)
 }
 
+// c06Req: the request in front of the client stream (nil: the stream starts with the payload)
+type c06Req struct {
+	Addr string `json:"addr"`
+	Pad  int    `json:"pad"`  // padding length
+	Segs []int  `json:"segs"` // arrival of the request bytes (frame type, address, padding): segment lengths; what is left over arrives as one more segment
+	Glue bool   `json:"glue"` // the first payload segment arrives together with the last request segment (one Read can return both)
+}
+
 type c06Case struct {
 	K        string  `json:"k"`
+	Req      *c06Req `json:"req"`
 	Mode     string  `json:"mode"` // "logged" | "fast"
 	Up       c06Side `json:"up"`
 	Down     c06Side `json:"down"`
@@ -128,6 +149,9 @@ type c06End struct {
 	off    int // stream offset of the next source byte
 	last   int // stream offset of the chunk the last Read returned
 	from   *c06End // the end whose Read feeds what is written here
+	hdr    []byte  // request bytes not yet handed out (they precede the source stream)
+	hsegs  []int   // their arrival segments
+	glue   bool
 	writes []c06Write
 	sink   bytes.Buffer
 	closed chan struct{}
@@ -153,8 +177,60 @@ func (e *c06End) isClosed() bool {
 	}
 }
 
+// readHdr: a Read while request bytes are still outstanding.  Returns what is left of the current
+// request segment; when that was the last request byte, the segment is glued and p has room, the first
+// payload segment follows in the same Read.  Called with run.mu held.
+func (e *c06End) readHdr(p []byte) (int, error) {
+	k := len(e.hdr)
+	if len(e.hsegs) > 0 && e.hsegs[0] < k {
+		k = e.hsegs[0]
+	}
+	if k > len(p) {
+		k = len(p)
+	}
+	copy(p, e.hdr[:k])
+	e.hdr = e.hdr[k:]
+	if len(e.hsegs) > 0 {
+		e.hsegs[0] -= k
+		if e.hsegs[0] == 0 {
+			e.hsegs = e.hsegs[1:]
+		}
+	}
+	np := 0
+	var err error
+	if len(e.hdr) == 0 && e.glue && len(e.reads) > 0 {
+		e.reads[0].Delay = 0 // it has arrived already
+		if k < len(p) {
+			seg := &e.reads[0]
+			np = seg.N
+			if np > len(p)-k {
+				np = len(p) - k
+			} else {
+				err = c06ErrOf(seg.Err, c06ErrScript)
+			}
+			for i := 0; i < np; i++ {
+				p[k+i] = byte((e.a*uint64(e.off+i) + e.b) % 256)
+			}
+			e.off += np
+			seg.N -= np
+			if seg.N == 0 {
+				e.reads = e.reads[1:]
+			}
+		}
+	}
+	e.run.rec("Q", len(p), k, np, c06Class(err))
+	return k + np, err
+}
+
 func (e *c06End) Read(p []byte) (int, error) {
 	e.run.mu.Lock()
+	if len(e.hdr) > 0 {
+		defer e.run.mu.Unlock()
+		if len(p) == 0 {
+			return 0, nil
+		}
+		return e.readHdr(p)
+	}
 	var delay int
 	exhausted := len(e.reads) == 0
 	if !exhausted {
@@ -280,6 +356,8 @@ func c06RunRelay(t *testing.T, c c06Case, res map[string]any) {
 	stats := &StreamStats{}
 	var err error
 	connClosed := false
+	var reqAddr, reqErr string
+	var reqFT uint64
 	synctest.Test(t, func(t *testing.T) {
 		// channels must be made inside the bubble, or waiting on them does not count as durably blocked
 		stream = &c06End{run: run, rd: "U", wd: "D", a: c.Up.A, b: c.Up.B, reads: append([]c06Read(nil), c.Up.Reads...),
@@ -289,6 +367,41 @@ func c06RunRelay(t *testing.T, c c06Case, res map[string]any) {
 		stream.from, target.from = target, stream
 		logger := &c06Logger{run: run, logs: map[string][]c06Log{
 			"U": append([]c06Log(nil), c.Up.Logs...), "D": append([]c06Log(nil), c.Down.Logs...)}}
+		if c.Req != nil {
+			// what the client wrote on the stream ahead of its payload (the frame WriteTCPRequest produces)
+			hdr := quicvarint.Append(nil, protocol.FrameTypeTCPRequest)
+			hdr = quicvarint.Append(hdr, uint64(len(c.Req.Addr)))
+			hdr = append(hdr, c.Req.Addr...)
+			hdr = quicvarint.Append(hdr, uint64(c.Req.Pad))
+			hdr = append(hdr, bytes.Repeat([]byte{'p'}, c.Req.Pad)...)
+			stream.hdr, stream.glue = hdr, c.Req.Glue
+			left := len(hdr)
+			for _, n := range c.Req.Segs {
+				if n > 0 && n < left {
+					stream.hsegs = append(stream.hsegs, n)
+					left -= n
+				}
+			}
+			stream.hsegs = append(stream.hsegs, left)
+			// server.go:246 (ProxyStreamHijacker) and server.go:276 (handleTCPRequest)
+			ft, ferr := quicvarint.Read(quicvarint.NewReader(stream))
+			var addr string
+			var rerr error
+			if ferr == nil {
+				addr, rerr = protocol.ReadTCPRequest(stream)
+			}
+			reqAddr, reqFT, reqErr = addr, ft, c06Class(ferr)
+			if ferr == nil {
+				reqErr = c06Class(rerr)
+			}
+			run.mu.Lock()
+			run.rec("A", reqErr)
+			run.mu.Unlock()
+			if reqErr != "nil" {
+				stream.Close() // server.go:278
+				return
+			}
+		}
 		if c.Mode == "fast" {
 			err = copyTwoWay(stream, target)
 		} else {
@@ -328,6 +441,27 @@ func c06RunRelay(t *testing.T, c c06Case, res map[string]any) {
 	res["sink_down"] = []uint64{uint64(stream.sink.Len()), c06Digest(stream.sink.Bytes())}
 	ok, why, facts := c06Verdict(c, run.trace, err, connClosed,
 		map[string]*c06End{"U": stream, "D": target}, map[string]*c06End{"U": target, "D": stream})
+	if c.Req != nil {
+		// the request phase on a well-formed request: accepted, with the address the client wrote
+		res["req_err"], res["req_addr_ok"] = reqErr, reqAddr == c.Req.Addr
+		early := 0
+		for _, ev := range run.trace {
+			if ev[0].(string) == "Q" {
+				early += ev[3].(int)
+			}
+		}
+		res["req_early"] = early // payload bytes the stream handed out before the copy started
+		facts["req_early"] = early
+		if ok {
+			switch {
+			case reqErr != "nil":
+				ok, why = false, fmt.Sprintf("request: a well-formed request (address of %d bytes, padding %d) was rejected with %s", len(c.Req.Addr), c.Req.Pad, reqErr)
+			case reqFT != protocol.FrameTypeTCPRequest || reqAddr != c.Req.Addr:
+				ok, why = false, fmt.Sprintf("request: parsed frame type %d address %q, the client wrote %q", reqFT, reqAddr, c.Req.Addr)
+			}
+			res["ok"], res["why"], res["detail"] = ok, c06Stable(why), why
+		}
+	}
 	res["ok"] = ok
 	res["why"] = c06Stable(why) // numbers go to "detail" so that equal failures collapse into one report
 	res["detail"] = why
@@ -386,6 +520,7 @@ func c06Verdict(c c06Case, trace [][]any, ret error, connClosed bool, src, snk m
 			lastLogN               uint64
 			broken                 bool
 			pendingErr             string
+			sunk                   int // bytes the sink accepted so far
 		)
 		setTerm := func(i int, cls string) {
 			if _, done := term[d]; !done {
@@ -460,6 +595,14 @@ func c06Verdict(c c06Case, trace [][]any, ret error, connClosed bool, src, snk m
 				}
 				if ln != len(lastChunk) || ev[3].(uint64) != c06Digest(lastChunk) {
 					return false, fmt.Sprintf("%s: the chunk written (%d bytes) is not the chunk just read (%d bytes)", d, ln, len(lastChunk)), facts
+				}
+				// identity, not only value (the source pattern is periodic): the chunk handed to the sink must be the
+				// stretch of the sender's stream that starts where the sink's content ends
+				if so := ev[6].(int); so >= 0 && so != sunk && !broken && ln > 0 {
+					return false, fmt.Sprintf("%s: the sink holds the first %d bytes the sender sent and is handed the stretch starting at offset %d: %d bytes of the sender's stream never reach it", d, sunk, so, so-sunk), facts
+				}
+				if nw > 0 {
+					sunk += nw
 				}
 				if nw < ln && ec == "nil" {
 					broken = true
